@@ -803,7 +803,7 @@ func c41tAsgString(n *c41tNode, a map[string]bool) string {
 
 // ---- the rules ---------------------------------------------------------------------------------------------
 
-type c41tFloors struct{ p1a, p1b, p2a, p2b, p2c, p3 int }
+type c41tFloors struct{ p1a, p1b, p1c, p2a, p2b, p2c, p3, p4 int }
 
 func runC41Tree(c *Ctx, dbRel, root string, pairs *c41Pairs, fl c41tFloors) {
 	c.Rule("C41-P1a", "emptiness predicates cover every collection: for every struct type T of the privilege-set tree under "+root+
@@ -814,6 +814,8 @@ func runC41Tree(c *Ctx, dbRel, root string, pairs *c41Pairs, fl c41tFloors) {
 		"(len(child.f)/child.Count()/child.HasPrivileges()/len(child.getX()) compared with zero, combined with && || !) must not skip a child under any assignment in which "+
 		"a collection that the guarded code consumes holds something (the whole child when it is appended/passed on/returned, every collection inside a predicate-family method, "+
 		"otherwise the collections the guarded statements read)", fl.p1b)
+	c.Rule("C41-P1c", "guarded removal of a child: an if whose condition is an emptiness test of a value of tree type U and whose body deletes an entry from a map of U children "+
+		"must not fire under any assignment in which some collection of U holds something (the whole child, with everything below it, is dropped)", fl.p1c)
 	c.Rule("C41-P2a", "the serializer and the loader visit every collection of every tree type: each collection field T.f is paired with at least one serialized field "+
 		"on the writer side and on the loader side (pairs of C41-F2)", fl.p2a)
 	c.Rule("C41-P2b", "set operations use every collection: a method of tree type T whose single parameter is again a T (union, equality) uses collection f of the receiver and of the "+
@@ -822,6 +824,9 @@ func runC41Tree(c *Ctx, dbRel, root string, pairs *c41Pairs, fl c41tFloors) {
 		"unless every caller removes the receiver's entry from its parent's map in the same function", fl.p2c)
 	c.Rule("C41-P3", "grant/revoke symmetry: for every method pair AddX/RemoveX of a tree type, the leaf collections that AddX stores into are exactly the leaf collections "+
 		"that RemoveX deletes from (access paths from the receiver through child accessors)", fl.p3)
+
+	c.Rule("C41-P4", "one key space per collection: when the functions that store into a map collection T.f pass the key through a string normaliser (func(string) string, e.g. strings.ToLower), "+
+		"every other function that looks up, stores or deletes in T.f derives its key through the same normaliser, or takes it from ranging over the same collection of another set", fl.p4)
 
 	db := c.P.Pkg(dbRel)
 	if db == nil {
@@ -866,9 +871,11 @@ func runC41Tree(c *Ctx, dbRel, root string, pairs *c41Pairs, fl c41tFloors) {
 
 	t.ruleP1a(fam)
 	t.ruleP1b(db)
+	t.ruleP1c(db)
 	t.ruleP2a(pairs)
 	t.ruleP2bc(db)
 	t.ruleP3(db)
+	t.ruleP4(db)
 }
 
 func (t *c41tTree) ruleP1a(fam []string) {
@@ -1062,6 +1069,91 @@ func (t *c41tTree) ruleP1b(db *packages.Package) {
 				}
 				return true
 			})
+			return true
+		})
+	})
+}
+
+func (t *c41tTree) ruleP1c(db *packages.Package) {
+	c := t.c
+	c.P.EachModuleFuncDecl(func(pk *packages.Package, fd *ast.FuncDecl) {
+		info := pk.TypesInfo
+		ast.Inspect(fd.Body, func(x ast.Node) bool {
+			ifs, ok := x.(*ast.IfStmt)
+			if !ok {
+				return true
+			}
+			// a delete of a child entry in the then-branch
+			var u *c41tNode
+			var del *ast.CallExpr
+			ast.Inspect(ifs.Body, func(y ast.Node) bool {
+				if _, ok := y.(*ast.FuncLit); ok {
+					return false
+				}
+				call, ok := y.(*ast.CallExpr)
+				if !ok || !IsBuiltinCall(info, call, "delete") || len(call.Args) != 2 || del != nil {
+					return true
+				}
+				if mt, ok := types.Unalias(info.TypeOf(call.Args[0])).Underlying().(*types.Map); ok {
+					if n := t.nodeOf(mt.Elem()); n != nil && t.byObj[c41tNamedObj(mt.Elem())] == n {
+						u, del = n, call
+					}
+				}
+				return true
+			})
+			if u == nil {
+				return true
+			}
+			// the subject: the one variable of node type U that the condition talks about
+			var subj types.Object
+			several := false
+			ast.Inspect(ifs.Cond, func(y ast.Node) bool {
+				id, ok := y.(*ast.Ident)
+				if !ok {
+					return true
+				}
+				if v, ok := info.Uses[id].(*types.Var); ok && !v.IsField() && t.nodeOf(v.Type()) == u {
+					if subj != nil && subj != v {
+						several = true
+					}
+					subj = v
+				}
+				return true
+			})
+			if subj == nil || several {
+				return true
+			}
+			ev := &c41tEval{t: t, info: info, subj: c41tAliases(info, fd.Body, subj), n: u, asg: t.uniform(u, false)}
+			if _, ok := ev.cond(ifs.Cond); !ok {
+				return true // some other condition
+			}
+			key := t.funcKey(db, pk, fd) + ":delete " + u.name
+			var missing []string
+			witness := ""
+			for _, f := range u.coll {
+				for _, a := range t.assignments(u, f) {
+					ev.asg = a
+					cv, ok := ev.cond(ifs.Cond)
+					if !ok {
+						c.Note("C41-P1c", "unread/"+key, ifs.Pos(), "the emptiness test is not readable under every assignment: not decided")
+						return true
+					}
+					if cv {
+						missing = append(missing, f)
+						if witness == "" {
+							witness = c41tAsgString(u, a)
+						}
+						break
+					}
+				}
+			}
+			if len(missing) == 0 {
+				c.Ok("C41-P1c", key, ifs.Pos(), "the entry is deleted only when every collection of the "+u.name+" is empty")
+			} else {
+				c.Bad("C41-P1c", key, del.Pos(), fmt.Sprintf("in %s the %s entry is deleted from its parent's map although %s may still hold something (assignment: %s non-empty): "+
+					"the emptiness test in front of the delete looks at only some collections, so the privileges held in %s are revoked along with it",
+					t.funcKey(db, pk, fd), u.name, strings.Join(missing, ", "), witness, strings.Join(missing, ", ")))
+			}
 			return true
 		})
 	})
@@ -1482,4 +1574,169 @@ func (t *c41tTree) ruleP3(db *packages.Package) {
 			}
 		}
 	}
+}
+
+// ---- P4: key normalisation -----------------------------------------------------------------------------------
+
+// c41tP4Exceptions: sites whose un-normalised key was examined and cannot be reached with a non-normalised name.
+var c41tP4Exceptions = map[string]string{
+	"PrivilegeSet.RemoveGlobalDynamic:PrivilegeSet.globalDynamic": "its only SQL caller (REVOKE) passes the name the parser has already lower-cased, and the row editor of mysql.global_grants, " +
+		"which passes upper-case names, belongs to a table that is not exposed to SQL; no input was found that leaves a revoked dynamic privilege behind",
+}
+
+type c41tKeySite struct {
+	fn     string
+	pos    token.Pos
+	store  bool
+	exempt bool
+	norm   map[string]bool
+}
+
+func (t *c41tTree) ruleP4(db *packages.Package) {
+	c := t.c
+	sites := map[string][]*c41tKeySite{} // "T.f" -> sites
+	pos := map[string]token.Pos{}
+	c.P.EachModuleFuncDecl(func(pk *packages.Package, fd *ast.FuncDecl) {
+		info := pk.TypesInfo
+		var deps *lfDeps
+		fieldOf := func(e ast.Expr) (string, string) { // X.f with X of a node type and f a map collection
+			sel, ok := ast.Unparen(e).(*ast.SelectorExpr)
+			if !ok {
+				return "", ""
+			}
+			s := info.Selections[sel]
+			if s == nil || s.Kind() != types.FieldVal || len(s.Index()) != 1 {
+				return "", ""
+			}
+			n := t.nodeOf(s.Recv())
+			if n == nil || t.byObj[c41tNamedObj(s.Recv())] != n {
+				return "", ""
+			}
+			if _, isMap := types.Unalias(s.Obj().Type()).Underlying().(*types.Map); !isMap {
+				return "", ""
+			}
+			for _, f := range n.coll {
+				if f == s.Obj().Name() {
+					return n.name + "." + f, f
+				}
+			}
+			return "", ""
+		}
+		stores := map[ast.Expr]bool{}
+		ast.Inspect(fd.Body, func(x ast.Node) bool {
+			if as, ok := x.(*ast.AssignStmt); ok {
+				for _, l := range as.Lhs {
+					stores[ast.Unparen(l)] = true
+				}
+			}
+			return true
+		})
+		record := func(coll ast.Expr, key ast.Expr, at token.Pos, store bool) {
+			tf, f := fieldOf(coll)
+			if tf == "" {
+				return
+			}
+			if deps == nil {
+				deps = lfBuild(info, fd.Body, nil)
+			}
+			st := &c41tKeySite{fn: t.funcKey(db, pk, fd), pos: at, store: store, norm: map[string]bool{}}
+			deps.Reach(key, func(n ast.Node) {
+				switch y := n.(type) {
+				case *ast.CallExpr:
+					if fn := Callee(info, y); fn != nil && fn.Pkg() != nil {
+						sig, _ := fn.Type().(*types.Signature)
+						if sig != nil && sig.Recv() == nil && sig.Params().Len() == 1 && sig.Results().Len() == 1 && !sig.Variadic() {
+							if c41tIsStr(sig.Params().At(0).Type()) && c41tIsStr(sig.Results().At(0).Type()) {
+								st.norm[fn.Pkg().Name()+"."+fn.Name()] = true
+							}
+						}
+					}
+				case *ast.SelectorExpr:
+					if tf2, f2 := fieldOf(y); tf2 == tf && f2 == f {
+						st.exempt = true // the key comes from ranging over / reading the same collection of a set
+					}
+				}
+			})
+			sites[tf] = append(sites[tf], st)
+			if _, ok := pos[tf]; !ok {
+				pos[tf] = at
+			}
+		}
+		ast.Inspect(fd.Body, func(x ast.Node) bool {
+			switch y := x.(type) {
+			case *ast.IndexExpr:
+				record(y.X, y.Index, y.Pos(), stores[ast.Expr(y)])
+			case *ast.CallExpr:
+				if IsBuiltinCall(info, y, "delete") && len(y.Args) == 2 {
+					record(y.Args[0], y.Args[1], y.Pos(), false)
+				}
+			}
+			return true
+		})
+	})
+	var fields []string
+	for tf := range sites {
+		fields = append(fields, tf)
+	}
+	sort.Strings(fields)
+	for _, tf := range fields {
+		want := map[string]bool{}
+		for _, s := range sites[tf] {
+			if s.store && !s.exempt {
+				for g := range s.norm {
+					want[g] = true
+				}
+			}
+		}
+		if len(want) == 0 {
+			continue // keys of this collection are stored as given (enum-valued privilege ids, ...)
+		}
+		var wl []string
+		for g := range want {
+			wl = append(wl, g)
+		}
+		sort.Strings(wl)
+		// one instance per function and collection
+		byFn := map[string][]*c41tKeySite{}
+		var fns []string
+		for _, s := range sites[tf] {
+			if s.exempt {
+				continue
+			}
+			if _, ok := byFn[s.fn]; !ok {
+				fns = append(fns, s.fn)
+			}
+			byFn[s.fn] = append(byFn[s.fn], s)
+		}
+		sort.Strings(fns)
+		for _, fn := range fns {
+			key := fn + ":" + tf
+			var bad *c41tKeySite
+			for _, s := range byFn[fn] {
+				for _, g := range wl {
+					if !s.norm[g] && bad == nil {
+						bad = s
+					}
+				}
+			}
+			switch {
+			case bad == nil:
+				c.Ok("C41-P4", key, byFn[fn][0].pos, "keys pass through "+strings.Join(wl, ", "))
+			case c41tP4Exceptions[key] != "" && !c.fixtureMode:
+				c.Exc("C41-P4", key, bad.pos, c41tP4Exceptions[key])
+			default:
+				what := "looks up"
+				if bad.store {
+					what = "stores"
+				}
+				c.Bad("C41-P4", key, bad.pos, fmt.Sprintf("%s %s in %s with a key that does not pass through %s, while the entries are stored under keys that do: "+
+					"an entry whose name contains characters the normaliser changes is never found (a revoke leaves it behind, a lookup misses it)", fn, what, tf, strings.Join(wl, ", ")))
+			}
+		}
+	}
+}
+
+func c41tIsStr(ty types.Type) bool {
+	b, ok := types.Unalias(ty).Underlying().(*types.Basic)
+	return ok && b.Info()&types.IsString != 0
 }
